@@ -3,7 +3,7 @@ GO_PKGNAME = "dht"
 HARNESS = ["dht/sim_test.go", "dht/lookup_test.go"]
 GO_TEST = "TestVerifC01"
 RUN_MODULE = "Run_C01"
-COQ_TARGETS = ["Corr/Run_C01.vo"]
+COQ_TARGETS = ["Corr/Run_C01.vo", "Proofs/LookupProofs.vo"]
 N = {"quick": 300, "thorough": 6000}
 RULE = ("random networks of 1-50 peers (failing 0-60%, lying 0-30%: oversize lists, duplicates, the requester itself), K in {1,2,3,5,20}, "
         "alpha in {1,2,3,10}, beta in {1,2,3}, IP-group limit 0-3, optional FindPeer-style target, optional stop function, optional cancellation "
@@ -14,8 +14,15 @@ TRUSTED = ["sha256 / kbucket.ConvertKey (ids are supplied as sha256 values)", "k
            "testing/synctest virtual time and blocking detection"]
 ASSUMPTIONS = ["distinct peers have distinct sha256 ids", "responses of one peer are the same each time it is asked"]
 TECHNIQUE = "Coq proof by induction over event lists of the lookup state machine + differential correspondence under synctest"
-LEVEL_TEXT = "see DESIGN.md C01"
-LEVEL_NOTE = "see DESIGN.md C01"
+LEVEL_TEXT = ("Theorems in coq/Props/C01.v hold for every configuration, every scripted network (failing and lying peers), every seed list and "
+              "every arrival order / cancellation instant (induction over the event list of the lookup state machine): no protocol panic, result "
+              "bounded by K, distinct, without self, strictly ascending, every member a seed or named in a processed answer, none failed, exactly "
+              "the K nearest learned non-failed peers, events agree with requests and answers. Every run also drives the real "
+              "runLookupWithFollowup one response at a time and compares result, states, events and requests with the model, and evaluates the "
+              "property itself on the implementation's trace.")
+LEVEL_NOTE = ("Proof is about the Gallina transcription of query.go/qpeerset.go; goroutines are replaced by explicit event lists (one event = "
+              "one queryUpdate received by the run loop). The tie to the Go code is the correspondence run under testing/synctest (differential, "
+              "bounded by the generator). Trusted: Coq kernel, vm_compute, harness, sha256 ids, kbucket NearestPeers, peerstore address merging.")
 
 
 def classify(desc, code):
